@@ -376,6 +376,20 @@ def extract_readers(ex, events: List[Event], reader_cls_names=("BytesReader",), 
                 r.flat.append(RTell(e, e.d["result"]))
             elif nm == "seek":
                 r.flat.append(RSeek(e, e.d["args"][0]))
+    # a field read in one piece and decoded with struct.unpack is the sequence of its fixed-width integer fields
+    for e in events:
+        if e.kind == "extcall" and e.d["name"] == "struct.unpack" and e.d.get("fields"):
+            f = by_result.get(unsnap(e.d["args"][1]).uid)
+            if f is not None and is_const(f.size) and cval(f.size) == e.d["total"] and f in f.reader.flat:
+                parts = []
+                for n_, v in e.d["fields"]:
+                    pf = RField(f.reader, C(n_), unsnap(v.args[1][0]), f.ev)
+                    pf.int_views.append(v)
+                    pf.order = e.d["order"]
+                    by_result[pf.result.uid] = pf
+                    parts.append(pf)
+                k_ = f.reader.flat.index(f)
+                f.reader.flat[k_:k_ + 1] = parts
     # int views and eof guards
     for e in events:
         if e.kind == "extcall" and e.d["name"] == "int.from_bytes" and e.d["args"]:
